@@ -375,6 +375,49 @@ func checkC08(p *Prog, rp *Report) {
 				sep.check(s.Status == "checked" || s.Status == "returned", fname(es)+":write-error", p.Pos(s.Call.Pos()), "a failing separator write is returned", "the error of writing the separator is "+s.Status)
 			}
 		}
+		// end to end through the exported API: three Encode calls, the middle one on a struct whose fields
+		// are all empty (it contributes no paragraph): the other two must still read back as two paragraphs
+		{
+			var problems []string
+			newEnc := p.Func("control", "NewEncoder")
+			encode := p.Method("control", "Encoder", "Encode")
+			str := types.Typ[types.String]
+			t := mkProbeType("SepProbe", []probeField{{"A", str, "", false}, {"B", str, "", false}})
+			run := newC09Run(p)
+			wid := run.st.alloc(types.Typ[types.Int], OpaqueV{"writer"})
+			ret, why := run.call(newEnc, IfaceV{T: types.NewPointer(types.Typ[types.Int]), V: Ptr{Obj: wid}})
+			tv, _ := ret.(*TupleV)
+			if why != "" || tv == nil || encode == nil {
+				problems = append(problems, "undecided: NewEncoder: "+why)
+			} else {
+				for _, vals := range []map[string]Val{{"A": "1", "B": "x"}, {}, {"A": "2"}} {
+					obj := run.st.alloc(t, mkStruct(t, vals))
+					if r, why := run.call(encode, tv.E[0], IfaceV{T: types.NewPointer(t), V: Ptr{Obj: obj}}); why != "" {
+						problems = append(problems, "undecided: Encode: "+why)
+						break
+					} else if _, ok := r.(nilV); !ok {
+						problems = append(problems, "Encode of a probe struct fails")
+					}
+				}
+				if len(problems) == 0 {
+					text := run.written.String()
+					var paras []string
+					lines := splitLines(text)
+					for pos := 0; pos < len(lines); {
+						para, err, next := refNext(lines, pos)
+						if err != "" {
+							break
+						}
+						paras = append(paras, para.String())
+						pos = next
+					}
+					if len(paras) != 2 || !strings.Contains(paras[0], `A="1"`) || !strings.Contains(paras[1], `A="2"`) || strings.Contains(paras[0], `A="2"`) {
+						problems = append(problems, fmt.Sprintf("Encode({A:1,B:x}), Encode({}), Encode({A:2}) writes %q, which reads back as %v: the paragraphs around the empty one are not kept apart", text, paras))
+					}
+				}
+			}
+			fillProblems(sep, "control.Encoder:empty-struct-between", p.Pos(es.Pos()), problems, "a struct without any non-empty field encoded between two others leaves them separated")
+		}
 		// (4) pointer receivers along the chain
 		ms := p.SSA.MethodSets.MethodSet(types.NewPointer(encT))
 		for i := 0; i < ms.Len(); i++ {
